@@ -535,7 +535,13 @@ def rule_porcelain(ctx, ix):
 
     ctx.rule("C10.porcelain", "evaluate*/tensor_method reach kernels only through the cached TensorMethod of the problem built from the arguments' own formats", min_instances=8)
     mod = "tensora.compile._porcelain"
-    fns = {n: ix.func(f"{mod}.{n}").node for n in ("evaluate", "evaluate_tensora", "evaluate_cffi", "tensor_method", "cachable_tensor_method")}
+    from .core import cached_factory
+
+    cached_name = cached_factory(ix).name
+    fns = {f.name: f.node for q, f in ix.funcs.items() if f.module == mod and q == f"{mod}.{f.name}"}
+    for need in ("evaluate", "evaluate_tensora", "evaluate_cffi", "tensor_method"):
+        if need not in fns:
+            raise AnalysisError(f"anchor vanished: public entry point {need} of compile/_porcelain.py")
 
     def result(value=None, error=None):
         r = S.Obj("Result")
@@ -578,11 +584,10 @@ def rule_porcelain(ctx, ix):
             "parse_format": parse_format,
             "make_problem": make_problem,
             "raise_exception": S.Obj("raise_exception"),
-            "cachable_tensor_method": cachable,
+            **{n: node for n, node in fns.items() if n != cached_name},
+            cached_name: cachable,
             "BackendCompiler": S.Obj("BackendCompiler", llvm=LLVM, cffi=CFFI),
             "TensorMethod": lambda problem, backend=LLVM: S.Obj("TensorMethod", problem=problem, backend=backend),
-            "evaluate_tensora": fns["evaluate_tensora"],
-            "evaluate_cffi": fns["evaluate_cffi"],
         }
         return parsed, G, calls
 
@@ -649,13 +654,13 @@ def rule_porcelain(ctx, ix):
     # cachable_tensor_method builds TensorMethod(problem, backend=backend)
     parsed, G, calls = scenario()
     P_ = S.Obj("Problem")
-    outs = list(S.explore(fns["cachable_tensor_method"], [P_, CFFI], {}, globals_=G))
+    outs = list(S.explore(fns[cached_name], [P_, CFFI], {}, globals_=G))
     ok = all(k == "return" and isinstance(v, S.Obj) and v.tag == "TensorMethod" and v.attrs["problem"] is P_ and v.attrs["backend"] is CFFI for _a, (k, v) in outs)
     ctx.instance("C10.porcelain")
     if ok and outs:
-        ctx.ok("C10.porcelain", "compile/_porcelain.py:cachable_tensor_method")
+        ctx.ok("C10.porcelain", f"compile/_porcelain.py:{cached_name}")
     else:
-        ctx.fail("C10.porcelain", "compile/_porcelain.py:cachable_tensor_method", f"does not construct TensorMethod(problem, backend): {outs}")
+        ctx.fail("C10.porcelain", f"compile/_porcelain.py:{cached_name}", f"does not construct TensorMethod(problem, backend): {outs}")
 
 
 def rule_call_validation(ctx, ix):
